@@ -329,6 +329,7 @@ func TestSim(t *testing.T) {
 	case "one":
 		seed := uint64(envInt("VERIF_SEED_EXACT", 0))
 		sc := scenarios[os.Getenv("VERIF_SCEN")]
+		currentSeed = seed
 		plan := sc.Gen(planSeedRng(seed), os.Getenv("VERIF_TIER"))
 		res := runScenario(t, sc, plan, Ctl{Seed: seed})
 		pj, _ := json.MarshalIndent(plan, "", " ")
@@ -370,6 +371,7 @@ func batch(t *testing.T) {
 		if sc == nil {
 			t.Fatalf("unknown scenario in %v", scNames)
 		}
+		currentSeed = seed
 		plan := sc.Gen(planSeedRng(seed), tier)
 		res := runScenario(t, sc, plan, Ctl{Seed: seed})
 		if sum.Runs == 0 {
@@ -496,6 +498,7 @@ func traceMode(t *testing.T) {
 	for i := int64(0); i < count; i++ {
 		seed := base<<32 + uint64(i)
 		sc := scenarios[scNames[int(i)%len(scNames)]]
+		currentSeed = seed
 		plan := sc.Gen(planSeedRng(seed), tier)
 		res := runScenario(t, sc, plan, Ctl{Seed: seed})
 		vb, _ := json.Marshal(res.Violations)
